@@ -1,12 +1,15 @@
 """C12 - a hand is played at the blinds in force when it opened."""
-from .lifebase import run_life, replay_life
+from .lifebase import run_life, replay_life, NH
 
 CL = {1: "the level published for the hand / the options given to the hand engine / the blinds the hand charges differ from the level in force when it opened",
-      2: "the running hand's level or charges changed"}
+      2: "the running hand's level or charges changed",
+      9: "the status right after CreateTable is not the model's (a table created on a break starts paused; an MTT table handed its players starts balancing)"}
 
 
 def run(res, replay=None):
-    return run_life(res, 5, CL, replay=replay)
+    q = res.tier == "quick"
+    plans = [("gen", None, NH[res.tier], 10 if q else 100, None), ("late", "late_level", 12 if q else 150, 6 if q else 50, None), ("create", "create", 18 if q else 54, 18, None)]
+    return run_life(res, 5, CL, replay=replay, plans=plans)
 
 
 def replay(res, path):
